@@ -313,6 +313,15 @@ func (e *c03env) applyMethod(l *slog.Entry, o wop) {
 		l.ResetLevelWriter(o.lvl)
 	case "ResetLevelWriters":
 		l.ResetLevelWriters()
+	case "CloseAnotherLogger":
+		// Close on ANOTHER logger that was never given writers (it resolves to the package defaults): this logger, and
+		// the package defaults it may fall back to, keep working
+		other := slog.New(fmt.Sprintf("closed%d", e.seq))
+		other.Close()
+		if o.w%2 == 1 {
+			kid := slog.New(fmt.Sprintf("closedparent%d", e.seq)).Root().New("kid")
+			kid.Close()
+		}
 	case "DeriveWithWriter", "DeriveWithErrorWriter":
 		// a child derived with the With form and reconfigured afterwards: the receiver's configuration stays what it was
 		var ch *slog.Entry
@@ -411,6 +420,11 @@ func (e *c03env) runSeq(kind string, viaOpts bool, ops []wop, rp func(k string, 
 	}
 	if viaOpts {
 		var opts []any
+		if e.seq%2 == 1 {
+			// New(name, key, value, options...): options may follow attributes (the doc comment of New shows that order)
+			opts = append(opts, "k0", 1, slog.Int("k1", 2))
+			rp("option_lists_that_follow_attributes", 1)
+		}
 		for _, o := range ops {
 			opts = append(opts, e.asOpt(o))
 			model.apply(o)
@@ -641,6 +655,7 @@ func c03alphabet(full bool) []wop {
 		}
 	}
 	if full {
+		a = append(a, wop{name: "CloseAnotherLogger", w: 0}, wop{name: "CloseAnotherLogger", w: 1})
 		for _, n := range []string{"DeriveWithWriter", "DeriveWithErrorWriter"} {
 			for _, w := range []int{0, 1, 2, 3, 4} {
 				a = append(a, wop{name: n, w: w})
